@@ -550,6 +550,14 @@ type lockSite struct {
 	Write     bool
 	Kind      string          // "keyspace" | "ttl" | "value" | "call"
 	GetCall   ssa.Instruction // for value uses: nil
+	PosHint   token.Pos       // reported instead of In.Pos() when that is not known (range iteration steps)
+}
+
+func (s lockSite) pos() token.Pos {
+	if p := s.In.Pos(); p.IsValid() || !s.PosHint.IsValid() {
+		return p
+	}
+	return s.PosHint
 }
 
 // sites enumerates the lock-relevant access sites of fn.
@@ -623,6 +631,7 @@ func (la *lockAnalysis) sites(fn *ssa.Function) []lockSite {
 			}
 		}
 	}
+	out = append(out, la.aliasSites(fn, name)...)
 	// direct field access on container values
 	for _, b := range fn.Blocks {
 		for _, in := range b.Instrs {
@@ -843,27 +852,27 @@ func (la *lockAnalysis) run(rule string) {
 		for _, s := range la.sites(fn) {
 			ok, detail := la.check(s)
 			if !ok && s.Kind == "keyspace" && !s.Write && advisoryGet(s.In) {
-				c.Add(rule, fnName(fn), s.Construct, s.In.Pos(), true, "advisory pre-check: result used only in a type/existence test (the read itself is atomic inside ConcurrentMap)")
+				c.Add(rule, fnName(fn), s.Construct, s.pos(), true, "advisory pre-check: result used only in a type/existence test (the read itself is atomic inside ConcurrentMap)")
 				nsites++
 				continue
 			}
 			if !ok && s.Kind == "call" && !s.Write && la.advisoryCall(s.In) {
-				c.Add(rule, fnName(fn), s.Construct, s.In.Pos(), true, "advisory pre-check through a helper: only existence/type bits leave the call and the helper never touches the inside of a stored value")
+				c.Add(rule, fnName(fn), s.Construct, s.pos(), true, "advisory pre-check through a helper: only existence/type bits leave the call and the helper never touches the inside of a stored value")
 				nsites++
 				continue
 			}
 			if !ok && !execs[fn] && fn.Parent() == nil && paramIndex(fn, s.Key) >= 0 {
 				// discharged as a requirement on callers (checked at every call site)
-				c.Add(rule, fnName(fn), s.Construct, s.In.Pos(), true, "precondition on callers: "+detail)
+				c.Add(rule, fnName(fn), s.Construct, s.pos(), true, "precondition on callers: "+detail)
 				nsites++
 				continue
 			}
 			if !ok && s.Kind == "keyspace" && !s.Write && advisoryGet(s.In) {
-				c.Add(rule, fnName(fn), s.Construct, s.In.Pos(), true, "advisory pre-check: result used only in a type/existence test (the read itself is atomic inside ConcurrentMap)")
+				c.Add(rule, fnName(fn), s.Construct, s.pos(), true, "advisory pre-check: result used only in a type/existence test (the read itself is atomic inside ConcurrentMap)")
 				nsites++
 				continue
 			}
-			c.Add(rule, fnName(fn), s.Construct, s.In.Pos(), ok, detail)
+			c.Add(rule, fnName(fn), s.Construct, s.pos(), ok, detail)
 			nsites++
 		}
 	}
